@@ -1,6 +1,6 @@
 (* Driver for the extracted one-key hybrid model (Hybrid/Engine.v): one model instance per key.
    Input: "cfg woi=.. tomb=.. foc=.. bug_rr=..", then "key <k> accepts=.. reins=..", then one line per step:
-     <k|*> ins <default|inmem|ondisk> | evict | rm | drain | restart | get | sload | subs
+     <k|*> ins <default|inmem|ondisk> | evict | rm | drain | restart | get | sload | subs | crash
    '*' applies the step to every key.  get / sload / subs print one observation line. *)
 open Hyb_model
 
@@ -66,6 +66,11 @@ let () =
               let (r, fromk) = disk_lookup2 !st in
               Printf.printf "%d sload %s\n" key
                 (match r with Some v -> (if fromk then "q" else "d") ^ string_of_int (int_of_n v) | None -> "-"))
+        | k :: "crash" :: _ ->
+            (* the process dies here; what a reopen that scans the whole device would serve (state unchanged) *)
+            apply k (fun key c st ->
+              let r = lookup_now (do_recover c !st !st.kdisk) in
+              Printf.printf "%d crash %s\n" key (match r with Some v -> string_of_int (int_of_n v) | None -> "-"))
         | k :: "subs" :: _ ->
             apply k (fun key _ st -> Printf.printf "%d subs %d\n" key (List.length !st.ksubs))
         | _ -> ()
